@@ -448,7 +448,7 @@ func parent(h *Harness, tier string) int {
 				defer os.Remove(skipFile)
 				var skipped []string
 				firstErr := r.stderr
-				for attempt := 0; attempt < 8; attempt++ {
+				for attempt := 0; attempt < 3; attempt++ { // (three fatal cases per shard are reported; more only cost time)
 					os.WriteFile(skipFile, []byte(strings.Join(skipped, "\n")), 0o644)
 					r = runWorker(self, i, n, true, skipFile, h.Prop, tier, seed)
 					if r.sum != nil {
